@@ -11,7 +11,13 @@ use std::fs::File;
 use std::io::BufReader;
 
 use std::path::PathBuf;
+#[cfg(rufsm_verif)]
+use crate::verif_sync::mpsc::{SendError, Sender};
+#[cfg(rufsm_verif)]
+use crate::verif_sync::{Arc, LockResult, Mutex, MutexGuard};
+#[cfg(not(rufsm_verif))]
 use std::sync::mpsc::{SendError, Sender};
+#[cfg(not(rufsm_verif))]
 use std::sync::{Arc, LockResult, Mutex, MutexGuard};
 
 #[cfg(feature = "Debug")]
